@@ -6,7 +6,15 @@
    specification, and the code once fixes/F1.diff is applied); [returned ... res] says fly returned [res]
    for a flight with at least two points per phase, for one [call] (weather on/off with the ground-speed oracle
    [gsp] of C16, a starting mass handed in or not, iteration on/off).  Theorems over R; the same text runs at binary64 in the
-   correspondence. *)
+   correspondence.
+
+   Stated gaps.  (1) "All values are finite" has no theorem: the theorems are over the reals, where every value is a
+   number; finiteness of the binary64 run is checked on every returned trajectory by the harness oracle only.
+   (2) [valid_oracle] excludes tables with |rocd| >= tas or zero cruise fuel flow: there numpy yields nan / inf (sqrt of
+   a negative number, division by zero) where Coq's total functions yield numbers, so the real-number statements
+   would not describe the code.  (3) A whole flight satisfying [returned] is exhibited at binary64 (proofs/C02_Main.v:
+   time_order_with_last_point_handover, returned_with_mass_iteration, returned_with_given_starting_mass); over R only
+   the per-loop examples of proofs/C02_Nonvacuous.v. *)
 From Coq Require Import ZArith List Bool Reals.
 From AV Require Import lib.Num model.C02_Model proofs.C02_Container proofs.C02_Interp proofs.C02_Builder proofs.C02_Main.
 Import ListNotations.
@@ -33,10 +41,12 @@ Theorem C02_handover_takes_last_point_before_fix_refuted :
 Proof. exact handover_as_coded_refuted. Qed.
 Print Assumptions C02_handover_takes_last_point_before_fix_refuted.
 
-Theorem C02_as_coded_agrees_only_when_container_is_full :
+(* why the default step hid F1: when the buffer is full both readings of a negative index agree (the converse is not
+   claimed; the witness above shows they differ after 51 appends) *)
+Theorem C02_as_coded_agrees_when_container_is_full :
   forall (A : Type) (d : A) (c : cont A) idx, c_size c = cap c -> make_point d false c idx = make_point d true c idx.
 Proof. exact as_coded_agrees_when_full. Qed.
-Print Assumptions C02_as_coded_agrees_only_when_container_is_full.
+Print Assumptions C02_as_coded_agrees_when_container_is_full.
 
 (* ... and what it does to a flight (binary64 witness, 80 points per phase): time runs backwards *)
 Theorem C02_time_order_before_fix_refuted : exists ts, w_times false = Some ts /\ sorted_f ts = false.
@@ -116,11 +126,13 @@ Theorem C02_unflyable_destination_above_cruise_rejected :
 Proof. exact main_destination_above_cruise_refused. Qed.
 Print Assumptions C02_unflyable_destination_above_cruise_rejected.
 
-Theorem C02_unflyable_too_short_rejected :
+(* building block: a cruise loop asked to fly a leg of negative length ends in an error.  The statement about returned
+   flights is the contrapositive C02_returned_route_is_long_enough below. *)
+Theorem C02_negative_cruise_leg_is_refused :
   forall (perf : oracle) (geo : geodesic) (gsp : wind) wx (step total : R) m (p : pt) kp kg,
   step < 0 -> exists e, @crz_loop RNum perf geo gsp wx step total (S m) p kp kg = Err e.
-Proof. exact main_too_short_refused. Qed.
-Print Assumptions C02_unflyable_too_short_rejected.
+Proof. exact main_negative_cruise_leg_is_refused. Qed.
+Print Assumptions C02_negative_cruise_leg_is_refused.
 
 Theorem C02_returned_route_is_long_enough :
   forall perf geo inside gsp, valid_oracle perf inside -> valid_wind gsp -> forall f c res, returned perf geo gsp f c res ->
@@ -129,12 +141,14 @@ Theorem C02_returned_route_is_long_enough :
 Proof. exact main_route_long_enough. Qed.
 Print Assumptions C02_returned_route_is_long_enough.
 
-Theorem C02_unflyable_outside_envelope_rejected :
+(* building block: a level-change loop whose first evaluation is refused by the performance model ends in EPerf.  The
+   statement about returned flights is C02_returned_points_inside_envelope below. *)
+Theorem C02_refused_state_ends_level_change :
   forall (perf : oracle) (geo : geodesic) (gsp : wind) wx rl (lhv start delta total : R) m (idx : R) (p : pt) kp kg,
   perf kp rl (start + idx * delta) (p_mass p) = None ->
   @lc_loop RNum perf geo gsp wx rl lhv start delta total m idx p kp kg = Err EPerf.
-Proof. exact main_outside_envelope_refused. Qed.
-Print Assumptions C02_unflyable_outside_envelope_rejected.
+Proof. exact main_refused_state_ends_level_change. Qed.
+Print Assumptions C02_refused_state_ends_level_change.
 
 Theorem C02_returned_points_inside_envelope :
   forall perf geo inside gsp, valid_oracle perf inside -> valid_wind gsp -> forall f c res, returned perf geo gsp f c res ->
@@ -166,6 +180,58 @@ Proof. exact main_given_mass_never_flies_before_fix. Qed.
 Print Assumptions C02_given_starting_mass_flies_before_fix_refuted.
 
 (* ---- trajectories/trajectory.py: interpolate_time ---- *)
+(* On the objects the property talks about: a RETURNED trajectory stores every hand-over point twice, so its time axis
+   is weakly increasing only.  For every field g of the points: *)
+Theorem C02_returned_times_weakly_increasing :
+  forall perf geo inside gsp, valid_oracle perf inside -> valid_wind gsp -> forall f c res, returned perf geo gsp f c res ->
+  weakly_increasing (map (@p_time RNum) (points (r_traj res))).
+Proof. exact main_times_weakly_increasing. Qed.
+Print Assumptions C02_returned_times_weakly_increasing.
+
+Theorem C02_resample_returned_at_own_times :
+  forall perf geo inside gsp, valid_oracle perf inside -> valid_wind gsp -> forall f c res, returned perf geo gsp f c res ->
+  forall (nan : R) (g : pt -> R) i, (i < length (points (r_traj res)))%nat ->
+  let pts := points (r_traj res) in
+  exists j, (i <= j)%nat /\ (j < length pts)%nat /\ p_time (nth j pts pt0) = p_time (nth i pts pt0) /\
+    (S j = length pts \/ p_time (nth i pts pt0) < p_time (nth (S j) pts pt0)) /\
+    @interp RNum nan (map (@p_time RNum) pts) (map g pts) (p_time (nth i pts pt0)) = g (nth j pts pt0).
+Proof. exact main_resample_at_stored_time. Qed.
+Print Assumptions C02_resample_returned_at_own_times.
+
+Theorem C02_resample_returned_between_is_linear :
+  forall perf geo inside gsp, valid_oracle perf inside -> valid_wind gsp -> forall f c res, returned perf geo gsp f c res ->
+  forall (nan : R) (g : pt -> R) i x, (S i < length (points (r_traj res)))%nat ->
+  let pts := points (r_traj res) in
+  p_time (nth i pts pt0) < x < p_time (nth (S i) pts pt0) ->
+  @interp RNum nan (map (@p_time RNum) pts) (map g pts) x =
+    (g (nth (S i) pts pt0) - g (nth i pts pt0)) / (p_time (nth (S i) pts pt0) - p_time (nth i pts pt0))
+    * (x - p_time (nth i pts pt0)) + g (nth i pts pt0).
+Proof. exact main_resample_between. Qed.
+Print Assumptions C02_resample_returned_between_is_linear.
+
+(* the same for any weakly increasing axis, and the duplicated-time rule on its own *)
+Theorem C02_resample_at_stored_time_weak : forall (nan : R) xs ys i,
+  length xs = length ys -> weakly_increasing xs -> (i < length xs)%nat ->
+  exists j, (i <= j)%nat /\ (j < length xs)%nat /\ nth j xs 0 = nth i xs 0 /\
+    (S j = length xs \/ nth i xs 0 < nth (S j) xs 0) /\
+    @interp RNum nan xs ys (nth i xs 0) = nth j ys 0.
+Proof. exact resample_at_stored_time_weak. Qed.
+Print Assumptions C02_resample_at_stored_time_weak.
+
+Theorem C02_resample_between_weak : forall (nan : R) xs ys i x,
+  length xs = length ys -> weakly_increasing xs -> (S i < length xs)%nat ->
+  nth i xs 0 < x < nth (S i) xs 0 ->
+  @interp RNum nan xs ys x =
+    (nth (S i) ys 0 - nth i ys 0) / (nth (S i) xs 0 - nth i xs 0) * (x - nth i xs 0) + nth i ys 0.
+Proof. exact resample_between_weak. Qed.
+Print Assumptions C02_resample_between_weak.
+
+Theorem C02_resample_at_duplicated_time_takes_later_point : forall x0 y0 y1 xs ys,
+  @interp_go RNum x0 y0 (x0 :: xs) (y1 :: ys) x0 = @interp_go RNum x0 y1 xs ys x0.
+Proof. exact resample_at_duplicated_time_takes_later_point. Qed.
+Print Assumptions C02_resample_at_duplicated_time_takes_later_point.
+
+(* special case: strictly increasing axes (no returned trajectory has one; kept for trajectories built otherwise) *)
 Theorem C02_resample_at_own_times_id : forall (nan : R) xs ys i,
   length xs = length ys -> strictly_increasing xs -> (i < length xs)%nat ->
   @interp RNum nan xs ys (nth i xs 0) = nth i ys 0.
